@@ -144,6 +144,17 @@ def _oracle(case, rng, thorough=False):
     return None, None
 
 
+def population_search(ctx):
+    """failing-input search over a fresh population (also used when an exception raised inside the implementation
+    ended the correspondence run early)"""
+    for i in range(300):
+        c = gen(ctx, True)
+        w, tags = oracle(c, ctx.rng)
+        if w:
+            ctx.fail(w, c, tags)
+            return
+
+
 def run(ctx):
     ctx.rule = ('bare regressors on multi-episode tagged-integer matrices (episode lengths incl. 1 and 2, arbitrary '
                 'labels, interleaved rows, n_inputs 0..2) and regressors at the end of random algebraic pipelines '
@@ -226,12 +237,7 @@ def run(ctx):
             if w:
                 ctx.fail(w, c, tags)
                 return
-        for i in range(300):
-            c = gen(ctx, True)
-            w, tags = oracle(c, ctx.rng)
-            if w:
-                ctx.fail(w, c, tags)
-                return
+        population_search(ctx)
     return ctx.finish('proof', search)
 
 
